@@ -7,3 +7,19 @@ package link_solicit
 
 //@ func (*solicitProtocol).IsEquivalent
 //@   ensures ret ==> samegetters(d, other, SolicitProtocol)
+
+// ---- C30 / C32: solicitation hashes ----
+
+// protoHashPre: the byte string that is hashed for (session, protocol ID, context) — read off
+// the writes of ComputeProtocolHash. Matching is by hash equality, i.e. (BLAKE3 collision-free)
+// by equality of these preimages, so the encoding must be injective in (protocol ID, context).
+//@ spec fun protoHashPre(s bytes, p string, c bytes) bytes = s ++ p ++ c
+
+//@ func ComputeProtocolHash
+//@   ensures content(ret) == blake3(protoHashPre(sessionID, protocolID, context))[..32]
+//@   ensures len(ret) == 32
+//@   fresh ret
+
+// Injectivity: for a fixed 32-byte session ID, equal preimages have equal protocol IDs and contexts,
+// however the bytes are split between the two fields.
+//@ lemma protoHashPre-injective: forall s bytes, p1 string, c1 bytes, p2 string, c2 bytes :: len(s) == 32 && protoHashPre(s, p1, c1) == protoHashPre(s, p2, c2) ==> p1 == p2 && c1 == c2
